@@ -489,7 +489,7 @@ func genFinite(c *Ctx) {
 	}
 	maxLen := 4
 	if c.Thorough {
-		maxLen = 6
+		maxLen = 5 // 13^5 x 4 = 1.5 million histories; length 6 is 19 million and more than the driver can read back
 	}
 	for _, auto := range []bool{false, true} {
 		for _, n := range []int{2, 3} {
